@@ -269,13 +269,15 @@ def check_stream(sources, M, case):
     with probe.observing(ids=True) as obs:
         for n, src in enumerate(sources):
             before = len(obs.ids)
-            st, envs, opened_, _ = observe.enum_observed(src, uri="s%d" % n, events=ge)
+            # equal texts arrive under the same uri (a file that is sent again), different texts under different uris
+            uri = "s%d" % sources.index(src)
+            st, envs, opened_, _ = observe.enum_observed(src, uri=uri, events=ge)
             if st != "ok":
                 if src in opened_:
                     return   # finding F1 (C01/C17), not an id question
                 M.violation("C11.stream_crash", {"what": "exception escaped GherkinEvents.enum", **envs}, case)
                 return
-            solo_st, solo, _, _ = observe.enum_observed(src, uri="s%d" % n, options=opts)
+            solo_st, solo, _, _ = observe.enum_observed(src, uri=uri, options=opts)
             if solo_st != "ok":
                 return
             # solo run draws inside the same observing block: exclude its draws from the offset
@@ -359,6 +361,9 @@ def run_shard(spec, M):
         for i in range(spec["start"], spec["start"] + spec["n"]):
             r = rng(seed, ID, "stream", i)
             sources = [make_source(r) for _ in range(r.randint(2, 6))]
+            if r.random() < 0.4:
+                sources.insert(r.randint(1, len(sources)), sources[r.randrange(len(sources))])        # the same source once more
+                M.count("streams_with_a_repeated_source")
             check_stream(sources, M, {"kind": "stream", "sources": sources})
     else:
         for g in corpus.good():
